@@ -162,6 +162,8 @@ type CaseC17 struct {
 	SampleSeed    uint64 `json:"sample_seed"`
 	// LintErrors: for the lint shapes, that many malformed lines are appended to the linted file (lint reports them and still exits 0)
 	LintErrors int `json:"lint_errors,omitempty"`
+	// LintLongLine: the linted file ends with a line of 70000 bytes (lint normally fails on it: then there is no report to lose)
+	LintLongLine bool `json:"lint_long_line,omitempty"`
 	// Only, if >= 0, restricts the sweep to one offset (set by the minimiser / replay).
 	Only int `json:"only"`
 }
@@ -185,6 +187,7 @@ func genC17(thorough bool) func(t *rapid.T) Case {
 		c.SampleSeed = rapid.Uint64().Draw(t, "sample_seed")
 		if strings.HasPrefix(c.Base.Inv.Shape, "lint") {
 			c.LintErrors = rapid.SampledFrom([]int{0, 0, 1, 7, 99, 100, 101, 250}).Draw(t, "lint_errors")
+			c.LintLongLine = rapid.IntRange(0, 3).Draw(t, "lint_long_line") == 3
 		}
 		return c
 	}
@@ -217,7 +220,7 @@ func sweepOffsets(length, maxExhaustive, sample int, seed uint64, bounds []int) 
 // Eval sweeps the sink-failure offsets of one report.
 func (c *CaseC17) Eval(ob *Obs) []Finding {
 	w := c.Base.world()
-	if c.LintErrors > 0 {
+	if c.LintErrors > 0 || c.LintLongLine {
 		target := "log.yaml"
 		if c.Base.Inv.Shape == "lint db" {
 			target = "food.yaml"
@@ -227,6 +230,9 @@ func (c *CaseC17) Eval(ob *Obs) []Finding {
 		b.WriteString(w.Files[fi].Data + "zz/bad:\n")
 		for i := 0; i < c.LintErrors; i++ {
 			fmt.Fprintf(&b, "  bad%d: x\n", i)
+		}
+		if c.LintLongLine {
+			b.WriteString("  " + strings.Repeat("w", 70000) + ": 1\n")
 		}
 		w.Files[fi].Data = b.String()
 	}
@@ -330,7 +336,7 @@ func genC10(thorough bool) func(t *rapid.T) Case {
 			if c.Target == "log" {
 				return s.ReadsLog && !strings.HasPrefix(s.Name, "lint db")
 			}
-			return s.ReadsDB && !strings.HasPrefix(s.Name, "lint") || s.Name == "lint db"
+			return s.ReadsDB && !strings.HasPrefix(s.Name, "lint") || s.Name == "lint db" || s.Name == "lint db log"
 		})
 		c.Base = genCLIBase(t, baseOpts{shapes: names, book: BookOpts{MaxRecipes: 5}, log: LogOpts{MaxDays: 4, MinDays: 1}})
 		if len(c.Base.Book) == 0 {
